@@ -5,17 +5,17 @@
 EXTENDS AdtBase
 
 SetTable == <<
-  <<"set", "ks", 6>>, <<"list->set", "ks", 3>>, <<"unfold", "x", 1>>,
-  <<"contains?", "vk", 4>>, <<"empty?", "v", 1>>, <<"size", "v", 3>>, <<"disjoint?", "vw", 2>>, <<"member", "vk", 2>>,
-  <<"find", "vxk", 2>>, <<"count", "vxk", 2>>, <<"any?", "vxk", 2>>, <<"every?", "vxk", 2>>, <<"fold", "v", 2>>, <<"->list", "v", 3>>,
-  <<"=?", "vw", 3>>, <<"<?", "vw", 3>>, <<">?", "vw", 3>>, <<"<=?", "vw", 3>>, <<">=?", "vw", 3>>,
-  <<"adjoin", "vks", 8>>, <<"replace", "vk", 1>>, <<"delete", "vks", 4>>, <<"delete-all", "vks", 2>>, <<"map", "vx", 3>>,
-  <<"filter", "vxk", 3>>, <<"remove", "vxk", 3>>, <<"partition", "vxk", 2>>, <<"copy", "v", 1>>,
-  <<"union", "vw", 4>>, <<"intersection", "vw", 4>>, <<"difference", "vw", 4>>, <<"xor", "vw", 4>>,
-  <<"adjoin!", "vks", 3>>, <<"replace!", "vk", 1>>, <<"delete!", "vks", 2>>, <<"delete-all!", "vks", 1>>,
-  <<"filter!", "vxk", 1>>, <<"remove!", "vxk", 1>>, <<"partition!", "vxk", 1>>, <<"list->set!", "vks", 1>>,
-  <<"union!", "vw", 2>>, <<"intersection!", "vw", 2>>, <<"difference!", "vw", 2>>, <<"xor!", "vw", 2>>,
-  <<"search!", "vk", 2>> >>
+  <<"set", S_s, 6>>, <<"list->set", S_s, 3>>, <<"unfold", S_x, 1>>,
+  <<"contains?", S_vk, 4>>, <<"empty?", S_v, 1>>, <<"size", S_v, 3>>, <<"disjoint?", S_vw, 2>>, <<"member", S_vk, 2>>,
+  <<"find", S_vxk, 2>>, <<"count", S_vxk, 2>>, <<"any?", S_vxk, 2>>, <<"every?", S_vxk, 2>>, <<"fold", S_v, 2>>, <<"->list", S_v, 3>>,
+  <<"=?", S_vw, 3>>, <<"<?", S_vw, 3>>, <<">?", S_vw, 3>>, <<"<=?", S_vw, 3>>, <<">=?", S_vw, 3>>,
+  <<"adjoin", S_vs, 8>>, <<"replace", S_vk, 1>>, <<"delete", S_vs, 4>>, <<"delete-all", S_vs, 2>>, <<"map", S_vx, 3>>,
+  <<"filter", S_vxk, 3>>, <<"remove", S_vxk, 3>>, <<"partition", S_vxk, 2>>, <<"copy", S_v, 1>>,
+  <<"union", S_vw, 4>>, <<"intersection", S_vw, 4>>, <<"difference", S_vw, 4>>, <<"xor", S_vw, 4>>,
+  <<"adjoin!", S_vs, 3>>, <<"replace!", S_vk, 1>>, <<"delete!", S_vs, 2>>, <<"delete-all!", S_vs, 1>>,
+  <<"filter!", S_vxk, 1>>, <<"remove!", S_vxk, 1>>, <<"partition!", S_vxk, 1>>, <<"list->set!", S_vs, 1>>,
+  <<"union!", S_vw, 2>>, <<"intersection!", S_vw, 2>>, <<"difference!", S_vw, 2>>, <<"xor!", S_vw, 2>>,
+  <<"search!", S_vk, 2>> >>
 SetLinear == {"adjoin!", "replace!", "delete!", "delete-all!", "filter!", "remove!", "partition!", "list->set!",
               "union!", "intersection!", "difference!", "xor!", "search!"}
 
@@ -73,19 +73,20 @@ SetEval(o, s, M) ==
 SetLaws(s, live, M) ==
   \A v \in live, w \in live :
     LET A == s[v] C == s[w]
-        E(name) == SetEval(Op(name, v, w, 0, 0, <<>>), s, M)
-        N(name) == E(name).new[1]
-        O(name) == CHOOSE x \in E(name).obs : TRUE
-    IN /\ N("union") = s[w] \cup s[v] /\ N("intersection") \subseteq A
-       /\ N("xor") = N("union") \ N("intersection")
-       /\ Cardinality(N("union")) + Cardinality(N("intersection")) = Cardinality(A) + Cardinality(C)
-       /\ N("difference") \cup N("intersection") = A
-       /\ (O("<=?") = <<1>>) = (N("union") = C)
-       /\ (O("<?") = <<1>>) = (O("<=?") = <<1>> /\ O("=?") = <<0>>)
-       /\ (O("disjoint?") = <<1>>) = (N("intersection") = {})
-       /\ (O("=?") = <<1>>) = (SetCanon(A) = SetCanon(C))
-       /\ O("size") = <<Len(SetCanon(A))>> /\ SetWF(SetCanon(A)) /\ SetFrom(SetCanon(A)) = A
-       /\ \A x \in 0..(NPred - 1), k \in 0..(M - 1) :
-             LET part == SetEval(Op("partition", v, 0, k, x, <<>>), s, M).new IN
+        N(name) == SetEval(Op(name, v, w, 0, 0, <<>>), s, M).new[1]
+        O(name) == CHOOSE x \in SetEval(Op(name, v, w, 0, 0, <<>>), s, M).obs : TRUE
+    IN \A U \in {N("union")}, I \in {N("intersection")}, X \in {N("xor")}, D \in {N("difference")},
+          le \in {O("<=?")}, eq \in {O("=?")}, cA \in {SetCanon(A)} :
+       /\ U = C \cup A /\ I \subseteq A /\ X = U \ I
+       /\ Cardinality(U) + Cardinality(I) = Cardinality(A) + Cardinality(C)
+       /\ D \cup I = A /\ D \cap C = {}
+       /\ (le = <<1>>) = (U = C)
+       /\ (O("<?") = <<1>>) = (le = <<1>> /\ eq = <<0>>)
+       /\ (O(">=?") = <<1>>) = (U = A)
+       /\ (O("disjoint?") = <<1>>) = (I = {})
+       /\ (eq = <<1>>) = (cA = SetCanon(C))
+       /\ O("size") = <<Len(cA)>> /\ SetWF(cA) /\ SetFrom(cA) = A
+       /\ (v = w) => \A x \in 0..(NPred - 1), k \in 0..(M - 1) :
+             \A part \in {SetEval(Op("partition", v, 0, k, x, <<>>), s, M).new} :
              part[1] \cup part[2] = A /\ part[1] \cap part[2] = {}
 =======================================================================
